@@ -39,13 +39,29 @@ Definition all_ops : list flag_op :=
    SetNeedConstraintCheckInPrewrite; DelNeedConstraintCheckInPrewrite; SetPreviousPresumeKNE;
    SetKeyLockedInShareMode; SetKeyLockedInExclusiveMode].
 
-Definition all_words : list N := map N.of_nat (seq 0 (N.to_nat flag_limit)).
+(* all 14-bit words, enumerated bit by bit (binary: cheap for the kernel and for coqchk) *)
+Fixpoint words (n : nat) : list N :=
+  match n with
+  | O => [0]
+  | S n' => flat_map (fun x => [N.double x; N.succ_double x]) (words n')
+  end.
+Definition all_words : list N := words 14.
+
+Lemma words_complete n : forall f, (f < 2 ^ N.of_nat n)%N -> In f (words n).
+Proof.
+  induction n as [|n IH]; intros f H.
+  - cbn in H. left. lia.
+  - cbn [words]. apply in_flat_map. exists (N.div2 f). split.
+    + apply IH. rewrite Nat2N.inj_succ, N.pow_succ_r' in H. rewrite N.div2_div. apply N.div_lt_upper_bound; lia.
+    + destruct (N.odd f) eqn:O.
+      * right. left. rewrite N.succ_double_spec. rewrite N.div2_div. pose proof (N.div_mod f 2 ltac:(lia)) as D.
+        rewrite <- N.bit0_mod, N.bit0_odd, O in D. change (N.b2n true) with 1%N in D. lia.
+      * left. rewrite N.double_spec. rewrite N.div2_div. pose proof (N.div_mod f 2 ltac:(lia)) as D.
+        rewrite <- N.bit0_mod, N.bit0_odd, O in D. change (N.b2n false) with 0%N in D. lia.
+Qed.
 
 Lemma all_words_complete f : (f < flag_limit)%N -> In f all_words.
-Proof.
-  intros H. unfold all_words. rewrite <- (N2Nat.id f). apply in_map. apply in_seq. split; [apply Nat.le_0_l|].
-  rewrite Nat.add_0_l. unfold flag_limit in *. lia.
-Qed.
+Proof. intros H. apply words_complete. exact H. Qed.
 
 Lemma all_ops_complete o : In o all_ops.
 Proof. destruct o; cbn; tauto. Qed.
